@@ -65,6 +65,9 @@ BINDERS = [
     ("while_assign", "while True:\n    {N} = 1\n    break"),
     ("if_assign", "if True:\n    {N} = 1"),
     ("with_tuple", "with __cm__() as ({N}, _t):\n    pass"),
+    ("import_plain_dotted", "import {N}.path"),  # binds the top-level package name
+    ("nested_tuple", "_a, (_t, {N}) = 1, (2, 3)"),
+    ("type_alias", "type {N} = int"),
 ]
 # use statements: command-looking Python expressions over holes {A} and {B}
 USES = [
@@ -80,6 +83,21 @@ USES = [
     ("slash", "{A} /{B}"),
 ]
 DEPTHS = ["module", "function", "class", "nested_function"]
+
+
+def _fake_packages():
+    import sys
+    import types
+
+    for n in NAMES:
+        pkg, sub = types.ModuleType(n), types.ModuleType(n + ".path")
+        pkg.__path__ = []
+        pkg.path = sub
+        sys.modules.setdefault(n, pkg)
+        sys.modules.setdefault(n + ".path", sub)
+
+
+_fake_packages()
 
 
 _PY_TEXT = {"command_first": "pass", "command_in_def": "def _cmd():\n    pass", "captured_first": "_o = ''"}
